@@ -52,7 +52,7 @@ CLAIMED = {
 }
 
 CLAIMED["C07"] = (
- "Bounded, not proved: the balance invariants and comparator-call bounds of the statement are checked by executing the real Put/Remove/Get of RedBlackTree, AVLTree and BTree (orders 3..5 quick, 3..7 thorough) on every history of a stated finite scope (all Put/Remove histories up to length 5/6 over 4 keys; all insertion orders of 7/8 keys followed by all short removal sequences and further inserts; trees of up to 20-40 keys built in a fixed family of orders with every sequence of 2/3 removals and complete removal in every order of the family), with the documented shape predicate (colours and black heights / balance factors and heights / fill bounds, leaf depth, Height()) and the statement's comparator-call bound evaluated after every single operation. The deductive part is reported separately in the evidence: for the red-black tree the whole colour layer (equal black heights, no red node with a red child, black root — hence the documented path-length ratio), node count and parent mirror are proved to be established or preserved by NewWith, Clear, Put, Remove and FromJSON through a ghost black height; for the B-tree the order-derived fill parameters with the arithmetic lemmas that make split and merge respect the fill bounds, the in-node binary search, setParent and the root split (fill of both halves, children handed over and re-parented) are proved for all orders m >= 3. The AVL rebalancing (putFix/removeFix through **Node), the B-tree split/rebalance recursion and the comparator-call bounds of all three trees could not be brought within the engine's reach in the time available; DESIGN.md §4 C07 says why.",
+ "Bounded, not proved: the balance invariants and comparator-call bounds of the statement are checked by executing the real Put/Remove/Get of RedBlackTree, AVLTree and BTree (orders 3..5 quick, 3..7 thorough) on every history of a stated finite scope (all Put/Remove histories up to length 5/6 over 4 keys; all insertion orders of 7/8 keys followed by all short removal sequences and further inserts; trees of up to 20-40 keys built in a fixed family of orders with every sequence of 2/3 removals and complete removal in every order of the family), with the documented shape predicate (colours and black heights / balance factors and heights / fill bounds, leaf depth, Height()) and the statement's comparator-call bound evaluated after every single operation. The deductive part is reported separately in the evidence: for the red-black tree the whole colour layer (equal black heights, no red node with a red child, black root — hence the documented path-length ratio), node count and parent mirror are proved to be established or preserved by NewWith, Clear, Put, Remove and FromJSON through a ghost black height; for the AVL tree the rebalancing core (rotate, singlerot, doublerot, putFix, removeFix) is proved locally against a ghost height — the slot afterwards holds a balanced root and the result reports the height change exactly; for the B-tree the order-derived fill parameters with the arithmetic lemmas that make split and merge respect the fill bounds, the in-node binary search, setParent and the root split (fill of both halves, children handed over and re-parented) are proved for all orders m >= 3. The AVL rebalancing (putFix/removeFix through **Node), the B-tree split/rebalance recursion and the comparator-call bounds of all three trees could not be brought within the engine's reach in the time available; DESIGN.md §4 C07 says why.",
  "Everything the bounded stand-in does not enumerate (larger trees, longer histories, other key types) is outside the claim; the comparator bound is checked on int keys with a counting comparator. Trusted: the Go toolchain running the test binary; the shape predicates in /verif/bounded/*.go.tmpl.",
  "DESIGN.md §4 C07")
 CATEGORY = {"C07": "exploration"}
